@@ -173,7 +173,7 @@ def evaluate(ctx, exes, oracle, cases, combos_of=None, count=True):
     res, fails = vf.par_lines(oracle, ol, chunk=1, timeout=1500)
     if fails:
         raise vf.Infra('openclip oracle failed: %s' % str(fails[0][2] or fails[0][3])[:600])
-    stats = dict(gp_rejected=0, inconsistent=0, nontrivial=set(), accepted=[], outside_cases=0, outside_runs=0, outside_disagree={}, outside_example=None,
+    stats = dict(gp_rejected=0, inconsistent=0, nontrivial=set(), accepted=[], broad=[], broad_runs=0, broad_nontrivial=set(), broad_not_judged_beyond_2_53=0,
                  skipped_after_crashes=0)
     recheck = []     # (failure dict) geometric failures on coordinates beyond 2^53, to be classified with relaxed tolerances
     for ci, (c, line) in enumerate(zip(cases, res)):
@@ -188,12 +188,8 @@ def evaluate(ctx, exes, oracle, cases, combos_of=None, count=True):
             # the winding number is not constant inside a piece: the specification would be ambiguous; the case is not used
             stats['inconsistent'] += 1
             continue
-        outside = head.get('oself', '1') != '1'      # open polylines not in general position: outside the quantifier
-        if outside:
-            stats['outside_cases'] += 1
-            label = 'horz-spike' if openpaths.horz_spike(c['O']) else 'other'
-        else:
-            stats['accepted'].append(ci)
+        broad = head.get('gp') == '2'      # closed paths in general position, open polylines not: judged by the robust pointwise tests
+        (stats['broad'] if broad else stats['accepted']).append(ci)
         big = beyond53(c)
         reports = iter(parts[1:])
         for r in per_case[ci]:
@@ -215,37 +211,47 @@ def evaluate(ctx, exes, oracle, cases, combos_of=None, count=True):
                 fails_out += [dict(key=k, ci=ci, what=w, replay=dict(base, **x)) for k, w, x in found]      # a crash is a crash on any input
                 continue
             rep = parse_report(next(reports))
-            if outside:
-                # not an instance of the property: observed and recorded, never a violation
-                stats['outside_runs'] += 1
-                if not report_clean(rep) and not big:
-                    stats['outside_disagree'][label] = stats['outside_disagree'].get(label, 0) + 1
-                    if stats['outside_example'] is None or (label == 'horz-spike' and stats['outside_example']['class'] != 'horz-spike'):
-                        stats['outside_example'] = dict(S=c['S'], C=c['C'], O=c['O'], ct=CT[r['ct']], fr=FR[r['fr']], solution=r['A']['open'], **{'class': label})
+            if broad and big:
+                # near-degenerate shapes are only meaningful in units; beyond 2^53 the cut points are known to be inexact: not judged
+                stats['broad_not_judged_beyond_2_53'] += 1
                 continue
+            if broad:
+                stats['broad_runs'] += 1
             if count:
                 ctx.count('evaluations')
                 ctx.count('harness_runs', 4)
                 ctx.hist('open_solution_paths', min(len(r['A']['open']), 8))
-            if rep['len'][4] > 0 and rep['kept_runs'] > 0:
+            if broad:
+                if rep['kept_runs'] > 0:
+                    stats['broad_nontrivial'].add((ci, r['ct'], r['fr']))
+            elif rep['len'][4] > 0 and rep['kept_runs'] > 0:
                 stats['nontrivial'].add((ci, r['ct'], r['fr']))
             for k in ('A', 'B', 'T', 'TB'):
                 if not r[k]['ok']:
                     found.append(('execute-returned-false', '%s: Execute returned false (%s run)' % (tag, k), dict(run=k)))
             A = r['A']['open']
+            how_judged = ('  [open polylines not in general position (near closed edges / close crossings / folding back): judged pointwise, only at points '
+                          '>= 3 units from every closed edge]') if broad else ''
             if rep['V'][0]:
-                found.append(('open.vertex-off-subject', '%s: %d solution vertices farther than 1.5 from every open subject segment, e.g. %s'
-                              % (tag, rep['V'][0], tuple(rep['V'][1])), dict(vertex=rep['V'][1], solution=A)))
+                found.append(('open.vertex-off-subject', '%s: %d solution vertices farther than 1.5 from every open subject segment, e.g. %s%s'
+                              % (tag, rep['V'][0], tuple(rep['V'][1]), how_judged), dict(vertex=rep['V'][1], solution=A)))
             if rep['S'][0]:
-                found.append(('open.segment-off-subject', '%s: %d solution segments with no single subject segment within 1.5 of both ends, e.g. %s'
-                              % (tag, rep['S'][0], rep['S'][1]), dict(segment=rep['S'][1], solution=A)))
+                found.append(('open.segment-off-subject', ('%s: %d solution segments with a quarter point farther than 1.5 from every subject segment, e.g. %s%s' if broad else
+                                                           '%s: %d solution segments with no single subject segment within 1.5 of both ends, e.g. %s%s')
+                              % (tag, rep['S'][0], rep['S'][1], how_judged), dict(segment=rep['S'][1], solution=A)))
             if rep['E'][0]:
-                found.append(('open.piece-extra', '%s: %d solution segments over a dropped part of the subject (beyond 3 units of a cut), e.g. %s'
-                              % (tag, rep['E'][0], rep['E'][1]), dict(segment=rep['E'][1], solution=A)))
+                found.append(('open.piece-extra', ('%s: %d solution segments with a point >= 3 units from every closed edge where open subjects do not survive, e.g. %s%s' if broad else
+                                                   '%s: %d solution segments over a dropped part of the subject (beyond 3 units of a cut), e.g. %s%s')
+                              % (tag, rep['E'][0], rep['E'][1], how_judged), dict(segment=rep['E'][1], solution=A)))
             if rep['M'][0]:
                 m = rep['M'][1]
-                found.append(('open.piece-missing', '%s: %d kept runs not covered by the solution, e.g. parameters [%.6f, %.6f] of subject segment %s'
-                              % (tag, rep['M'][0], m[4], m[5], m[:4]), dict(subject_segment=m[:4], run=m[4:], solution=A)))
+                if broad:
+                    found.append(('open.piece-missing', '%s: %d sample points of the open subject that must be kept (>= 3 units from every closed edge) have no solution segment '
+                                  'within 2 units, e.g. parameter %.6f of subject segment %s%s' % (tag, rep['M'][0], m[4], m[:4], how_judged),
+                                  dict(subject_segment=m[:4], run=m[4:], solution=A)))
+                else:
+                    found.append(('open.piece-missing', '%s: %d kept runs not covered by the solution, e.g. parameters [%.6f, %.6f] of subject segment %s'
+                                  % (tag, rep['M'][0], m[4], m[5], m[:4]), dict(subject_segment=m[:4], run=m[4:], solution=A)))
             if not rep['len_ok']:
                 L = rep['len']
                 found.append(('open.length', '%s: solution length %.3f, exact kept length %.3f, %d cuts (allowed difference %d)'
@@ -398,6 +404,13 @@ def gen_cases(ctx, n):
     cases, rng = [], ctx.rng
     while len(cases) < n:
         S, C, O, info = openpaths.gen_open_case(rng)
+        if info.get('broad'):
+            # near-degenerate shapes are measured in units: translate only (offsets below 2^53), never scale
+            off = rng.choice(openpaths.BROAD_OFFSETS)
+            tf = (1, rng.choice([-1, 0, 1]) * off, rng.choice([-1, 0, 1]) * off)
+            cases.append(dict(S=polys.scale_translate(S, *tf), C=polys.scale_translate(C, *tf), O=openpaths.scale_open(O, tf),
+                              regime='near+%d' % off, k=1, info=info))
+            continue
         reg = polys.REGIMES[len(cases) % len(polys.REGIMES)] if not rng.chance(1, 4) else polys.REGIMES[0]
         S2, C2, tf = polys.apply_regime(rng, S, C, reg)
         O2 = openpaths.scale_open(O, tf)
@@ -438,15 +451,16 @@ def run(ctx):
     ctx.cov['cases_with_nonconstant_piece_rejected'] = stats.get('inconsistent', 0)
     ctx.cov['cases_accepted'] = len(stats.get('accepted', []))
     ctx.cov['rule_runs_skipped_after_crashes'] = stats.get('skipped_after_crashes', 0)
-    ctx.cov['outside_quantifier'] = dict(
-        what=('cases whose open polylines are not in general position among themselves (fold back, first = last, collinear overlap): not instances '
-              'of the property; evaluated like the others, disagreements with the specification are only recorded here (coordinates < 2^53)'),
-        cases=stats.get('outside_cases', 0), rule_runs=stats.get('outside_runs', 0), disagreements=stats.get('outside_disagree', {}),
-        example=stats.get('outside_example'))
-    ctx.cov['distinct_nontrivial'] = len(stats.get('nontrivial', ()))
-    for ci in stats.get('accepted', []):
+    ctx.cov['broad_class'] = dict(
+        what=('cases whose closed paths are in general position but whose open polylines are not (vertices 0..3 units from closed edges, hairpins 1-2 units '
+              'wide through an edge, grazing vertices, fold-backs, first = last): judged by the robust pointwise tests (check_open_robust), coordinates < 2^53'),
+        cases=len(stats.get('broad', [])), rule_runs=stats.get('broad_runs', 0), distinct_nontrivial=len(stats.get('broad_nontrivial', ())),
+        not_judged_beyond_2_53=stats.get('broad_not_judged_beyond_2_53', 0))
+    ctx.cov['distinct_nontrivial'] = len(stats.get('nontrivial', ())) + len(stats.get('broad_nontrivial', ()))
+    ctx.cov['distinct_nontrivial_strict_class'] = len(stats.get('nontrivial', ()))
+    for ci in stats.get('accepted', []) + stats.get('broad', []):
         c = cases[ci]
-        ctx.hist('regime', c['regime'] if not c['regime'].startswith('corpus') else 'corpus')
+        ctx.hist('regime', 'corpus' if c['regime'].startswith('corpus') else 'near (unscaled, translated)' if c['regime'].startswith('near') else c['regime'])
         ctx.hist('open_vertices', sum(len(p) for p in c['O']))
         ctx.hist('open_paths', len(c['O']))
         ctx.hist('closed_edges', min(60, sum(len(p) for p in c['S'] + c['C'])) // 10 * 10)
@@ -512,9 +526,8 @@ def replay(ctx, path):
     fails, stats = evaluate(ctx, exes, oracle, [case], combos_of=lambda c: combos)
     ctx.cov['distinct_nontrivial'] = len(stats.get('nontrivial', ()))
     if stats.get('gp_rejected'):
-        print('input is not in general position (general_position_open = false): not an instance of the property')
-    if stats.get('outside_cases'):
-        print('the open polylines are not in general position among themselves (open_general = false): not an instance of the property; '
-              'disagreements with the specification under the given rules: %s' % (stats['outside_disagree'] or 'none'))
+        print('the closed paths are not in general position or an open polyline is degenerate (judged_broad = false): not an instance of the property')
+    if stats.get('broad'):
+        print('the open polylines are not in general position (general_position_C05 = false, closed paths are): judged by the robust pointwise tests')
     for f in primary(fails):
         ctx.violation(f['key'], f['what'], replay=f['replay'])
